@@ -10,6 +10,12 @@ import traceback
 sys.path.insert(0, os.path.dirname(os.path.abspath(__file__)))
 
 if __name__ == '__main__':
+    if os.environ.get('PYTHONHASHSEED') != '0':
+        # reproducible runs: the order in which sets of names are walked (and with it the order of assertions the solver
+        # sees) must not depend on python's per-process string hashing -- otherwise the same obligation is proved in 2 s
+        # in one run and needs the seed portfolio in the next
+        os.environ['PYTHONHASHSEED'] = '0'
+        os.execv(sys.executable, [sys.executable] + sys.argv)
     try:
         from pyvc.main import main
         rc = main(sys.argv[1:])
